@@ -1,0 +1,22 @@
+//go:build verif
+
+// Contracts for package alias_trie, read by the verification machinery in /verif.
+// This file contains no executable code; it is compiled only with -tags verif.
+package parser
+
+/*@
+// Insert ends at the node addressed by the whole key and stores the value THERE, marked valid:
+// "every successfully declared alias remains callable" needs hasValue on exactly that node,
+// whether the path already existed (the key is a prefix of an earlier key) or was just created.
+func (*Trie).Insert [C20]
+  requires t != nil && t.root != nil
+  ensures node != nil ==> node.hasValue && node.value == value
+  // the walk starts at the root and takes one step per key element
+  loop 0 invariant 0 <= len(key)
+
+// exact lookup: the answer is the value stored at the node the walk ends in
+func (*Trie).Contains [C20]
+  returns found, val
+  requires t != nil && t.root != nil
+  ensures found ==> val == node.value
+@*/
